@@ -331,14 +331,17 @@ func Run(sc *Scenario) *Obs {
 		<-done
 	}
 	if sc.Abort {
-		// the backend is still stalling mid-body: wait until it has closed its side
-		ms := 0
-		for _, e := range sc.EPs {
-			if e.Beh.StallMs > ms {
-				ms = e.Beh.StallMs
+		// the backend is still stalling mid-body and (sherpa) the engine notices the client's absence only on its
+		// next 1 s tick: wait until every request's attempt has been recorded somewhere (that is the last thing an
+		// attempt does before its deferred Decrement), at most 6 s
+		deadline := time.Now().Add(6 * time.Second)
+		for time.Now().Before(deadline) {
+			g := s.Stats.GetProxyStats()
+			if g.TotalRequests-b0.g[0] >= int64(n) {
+				break
 			}
+			time.Sleep(20 * time.Millisecond)
 		}
-		time.Sleep(time.Duration(ms+600) * time.Millisecond) // sherpa notices the client's absence only on its next 1 s tick
 	}
 	// quiescence: every backend has finished what it was doing, then gauges and counters settle
 	deadline := time.Now().Add(2 * time.Second)
